@@ -1,42 +1,185 @@
-use yrs::block::BlockRange;
-use yrs::updates::decoder::Decode;
-use yrs::updates::encoder::Encode;
-use yrs::{ClientID, ContentAttribute, Diff, IdMap, IdSet, ID};
+//! vx_witness: small-scope witness finder for the interval-set code of yrs
+//! (`IdRanges<T>` driven through `yrs::IdSet` and `yrs::IdMap<u8>`).
+//! See README.md.
+
+mod json;
+mod model;
+mod search;
+mod sut;
+
+use json::J;
+use model::{Case, MAX_UNIVERSE};
+use search::{Search, Stop};
+use std::time::{Duration, Instant};
+
+/// First stage of every search (see `cmd_search`).
+const SMALL_UNIVERSE: u32 = 3;
+
+const USAGE: &str = "usage:
+  vx_witness search <target> [--universe N] [--seed S] [--max-seconds T] [--jobs J]
+  vx_witness replay '<json>' | @path";
+
+fn die(msg: &str) -> ! {
+    eprintln!("vx_witness: {}", msg);
+    std::process::exit(2);
+}
 
 fn main() {
-    let c = ClientID::new(1);
-    let mut s = IdSet::new();
-    s.insert(ID::new(c, 0), 3);
-    s.insert(ID::new(c, 5), 3);
-    s.remove_range(&BlockRange::new(ID::new(c, 2), 4));
-    let r = s.get(&c).unwrap();
-    println!("{:?} {:?} {:?} {:?}", r.find_start(2), r.clock_start(), r.clock_end(), r.contains_clock(1));
-    let mut tmp = IdSet::new();
-    let empty = tmp.range_mut(c).clone();
-    println!("{}", empty.subset_of(r));
-    let owned = r.clone();
-    let mut t = IdSet::new();
-    t.insert_range(c, owned);
-    println!("{}", t == s);
-    let enc = s.encode_v1();
-    println!("{}", IdSet::decode_v1(&enc).unwrap() == s);
+    // panics of the code under test are caught and reported as JSON; keep stderr quiet
+    std::panic::set_hook(Box::new(|_| {}));
+    let args: Vec<String> = std::env::args().skip(1).collect();
+    let code = match args.first().map(|s| s.as_str()) {
+        Some("search") => cmd_search(&args[1..]),
+        Some("replay") => cmd_replay(&args[1..]),
+        _ => die(USAGE),
+    };
+    std::process::exit(code);
+}
 
-    let a = ContentAttribute::new("a", 1u8);
-    let b = ContentAttribute::new("b", 2u8);
-    let mut m: IdMap<u8> = IdMap::new();
-    m.insert(BlockRange::new(ID::new(c, 0), 4), vec![a.clone()]);
-    m.insert(BlockRange::new(ID::new(c, 2), 4), vec![b.clone()]);
-    for (cl, ar) in m.iter() {
-        let names: Vec<_> = ar.attrs.iter().map(|x| (x.name().to_string(), *x.value())).collect();
-        println!("{} {:?} {:?}", cl, ar.range, names);
+fn cmd_search(args: &[String]) -> i32 {
+    let mut target: Option<String> = None;
+    let mut universe: u32 = 8;
+    let mut seed: u64 = 1;
+    let mut max_seconds: Option<f64> = None;
+    let mut jobs: usize = std::thread::available_parallelism()
+        .map(|n| n.get())
+        .unwrap_or(1)
+        .min(8);
+    let mut i = 0;
+    while i < args.len() {
+        let a = args[i].as_str();
+        let mut value = |name: &str| -> String {
+            i += 1;
+            match args.get(i) {
+                Some(v) => v.clone(),
+                None => die(&format!("{} needs a value", name)),
+            }
+        };
+        match a {
+            "--universe" => {
+                universe = value(a).parse().unwrap_or_else(|_| die("--universe: not a number"));
+            }
+            "--seed" => {
+                seed = value(a).parse().unwrap_or_else(|_| die("--seed: not a number"));
+            }
+            "--max-seconds" => {
+                max_seconds = Some(value(a).parse().unwrap_or_else(|_| die("--max-seconds: not a number")));
+            }
+            "--jobs" => {
+                jobs = value(a).parse().unwrap_or_else(|_| die("--jobs: not a number"));
+            }
+            _ if a.starts_with("--") => die(&format!("unknown option {}\n{}", a, USAGE)),
+            _ => {
+                if target.is_some() {
+                    die(USAGE);
+                }
+                target = Some(a.to_string());
+            }
+        }
+        i += 1;
     }
-    let enc = m.encode_v1();
-    let d = IdMap::<u8>::decode_v1(&enc).unwrap();
-    println!("{}", d == m);
-    let mut m2 = m.clone();
-    Diff::diff_with(&mut m2, &s);
-    Diff::diff_with(&mut m2, &m);
-    println!("{}", m2.is_empty());
-    println!("{:?}", m.attributions(&BlockRange::new(ID::new(c, 1), 8)).len());
-    println!("{:?}", m.as_id_set());
+    let target = target.unwrap_or_else(|| die(USAGE));
+    if universe < 1 || universe > MAX_UNIVERSE {
+        die(&format!("--universe must be in 1..={}", MAX_UNIVERSE));
+    }
+    let groups = search::groups_for(&target)
+        .unwrap_or_else(|| die(&format!("unknown target {:?}; targets: {}", target, search::TARGETS)));
+    let mut s = Search {
+        n: universe,
+        seed,
+        deadline: max_seconds.map(|t| Instant::now() + Duration::from_secs_f64(t.max(0.0))),
+        jobs: jobs.max(1),
+        cases: 0,
+        single_client: true,
+        two_clients: true,
+    };
+    // Iterative deepening: a tiny universe first (everything exhaustive, a few
+    // thousand cases, plus the two-client lists), so that a witness is as
+    // small as possible; then the single-client lists of the requested universe.
+    let stages: Vec<(u32, bool)> = if universe > SMALL_UNIVERSE {
+        vec![(SMALL_UNIVERSE, true), (universe, false)]
+    } else {
+        vec![(universe, true)]
+    };
+    let mut truncated = false;
+    'stages: for (n, two_clients) in stages {
+        s.n = n;
+        s.two_clients = two_clients;
+        for (g, label) in &groups {
+            match s.run_group(*g, label) {
+                Ok(()) => {}
+                Err(Stop::Found(found)) => {
+                    println!("{}", search::found_json(&found.case, &found.failure));
+                    return 1;
+                }
+                Err(Stop::Timeout) => {
+                    truncated = true;
+                    break 'stages;
+                }
+            }
+        }
+    }
+    let mut out = vec![
+        ("target", J::str(&target)),
+        ("found", J::Bool(false)),
+        ("cases", J::Num(s.cases as i64)),
+        ("universe", J::num(universe)),
+        ("seed", J::Num(seed as i64)),
+    ];
+    if truncated {
+        // --max-seconds elapsed before the enumeration was complete
+        out.push(("truncated", J::Bool(true)));
+    }
+    println!("{}", J::obj(out));
+    0
+}
+
+fn cmd_replay(args: &[String]) -> i32 {
+    if args.len() != 1 {
+        die(USAGE);
+    }
+    let text = if let Some(path) = args[0].strip_prefix('@') {
+        std::fs::read_to_string(path).unwrap_or_else(|e| die(&format!("cannot read {}: {}", path, e)))
+    } else {
+        args[0].clone()
+    };
+    let mut j = json::parse(text.trim()).unwrap_or_else(|e| die(&e));
+    // a replay file may wrap the witness line: {"witness": {...}} or {"witness": "<json text>"}
+    if let Some(w) = j.get("witness") {
+        j = match w {
+            J::Str(inner) => json::parse(inner.trim()).unwrap_or_else(|e| die(&format!("witness: {}", e))),
+            other => other.clone(),
+        };
+    }
+    if j.get("op").is_none() {
+        die("replay: the JSON carries no case (no \"op\" field)");
+    }
+    let case = Case::from_json(&j).unwrap_or_else(|e| die(&format!("replay: {}", e)));
+    if let Err(e) = sut::validate(&case) {
+        die(&format!("replay: {}", e));
+    }
+    match search::run_guarded(&case) {
+        Ok(()) => {
+            // every check passed: show what the real code returns now
+            let actual = std::panic::catch_unwind(|| sut::actual_json(&case)).unwrap_or(J::Null);
+            println!(
+                "{}",
+                J::obj(vec![("reproduced", J::Bool(false)), ("actual", actual)])
+            );
+            0
+        }
+        Err(f) => {
+            println!(
+                "{}",
+                J::obj(vec![
+                    ("reproduced", J::Bool(true)),
+                    ("actual", f.actual),
+                    ("expected", f.expected),
+                    ("why", J::str(&f.why)),
+                    ("api", J::str(&f.api)),
+                ])
+            );
+            1
+        }
+    }
 }
